@@ -30,7 +30,7 @@ if ok:
     notes = json.load(open(f"{src}/notes.json"))
     head = os.popen("git -C /repo rev-parse --short HEAD").read().strip()
     meta = dict(property=pid, summary=notes.get("summary"), needs_to_manifest=notes.get("needs_to_manifest"), files=notes.get("files"),
-                origin=f"third round: written by an independent sub-agent given only the property text and a scratch worktree, at /repo {head}",
+                origin=f"{os.environ.get('SEED_ROUND', 'third')} round: written by an independent sub-agent given only the property text and a scratch worktree, at /repo {head}",
                 confirmed=dict(how="tools/confirm_seed3.sh in a fresh scratch worktree of /repo HEAD: demo on the clean tree, demo with the patch, full test suite with the patch",
                                demo_clean_rc=clean, demo_with_patch_rc=mut, suite_with_patch=suite.strip("= ")),
                 detected_by=None)
